@@ -240,6 +240,10 @@ func (c06) Gen(r *sim.Rand, tier string, run uint64) *sim.Scenario {
 	if r.Chance(1, 5) && total > 0 {
 		sc.Cfg["cap"] = int64(r.Intn(total + 1)) // tight: some emits are refused mid-history
 	}
+	if !far && sc.Cfg["cap"] >= int64(total+16) && r.Chance(1, 6) {
+		// a block of the history goes through Clone/Append: still one sequence of emitter calls
+		ops = withCloneSegment(r, ops, map[string]bool{"finalize": true, "setbase": true})
+	}
 	sc.Cfg["gentext"] = int64(r.Intn(2))
 	if far {
 		sc.Cfg["cap"] = int64(total + 16)
@@ -311,9 +315,46 @@ func c06run(sc *sim.Scenario, env *sim.Env, st *sim.Stats, observe bool) c06resu
 		return res
 	}
 	failedBefore := false
+	var seg cloneSeg
+	roomy := capacity >= 64 // blocks through Clone only when nothing is refused for capacity
 	for i, op := range sc.Ops {
 		if st != nil {
 			st.SimOps++
+		}
+		if op.K == "clone" {
+			if !seg.active() && roomy {
+				if msg := seg.begin(&e, capacity); msg != "" {
+					return viol(i, "clone_panic", "%s", msg)
+				}
+				m.NoCap = true
+				if st != nil {
+					st.Probe("block_through_clone")
+				}
+			}
+			continue
+		}
+		if op.K == "append" || (op.K == "finalize" && seg.active()) {
+			if seg.active() {
+				m.NoCap = false
+				if m.Len > capacity {
+					// the block does not fit: a refused Append is C19's and C16's subject; stop here
+					seg.end(&e)
+					return res
+				}
+				lenBefore := seg.orig.Len()
+				block, msg := seg.end(&e)
+				if msg != "" {
+					return viol(i, "append_panic", "%s", msg)
+				}
+				after := snapEmitter(e)
+				if after.Len != lenBefore+len(block) || after.Len != m.Len || after.PC != m.Addr {
+					return viol(i, "pc_len", "after Append of a %d-byte block: Len=%d PC=%#x, model Len=%d PC=%#x", len(block), after.Len, after.PC, m.Len, m.Addr)
+				}
+				emitted = append(emitted, after.Bytes[lenBefore:]...)
+			}
+			if op.K == "append" {
+				continue
+			}
 		}
 		if op.K == "finalize" {
 			pre := snapEmitter(e)
@@ -400,6 +441,25 @@ func c06run(sc *sim.Scenario, env *sim.Env, st *sim.Stats, observe bool) c06resu
 			continue
 		}
 
+		if seg.active() {
+			out := m.step(op)
+			panicked, msg := asmApply(e, op)
+			seg.mirror(op)
+			if observe {
+				env.ObsBool(panicked)
+				env.ObsU64(uint64(e.PC()))
+			}
+			if panicked != (out.Refused != "") {
+				return viol(i, "refusal_mismatch", "op %s inside a cloned block: model refused=%q, library panicked=%v (%s)", op, out.Refused, panicked, msg)
+			}
+			if !panicked && e.PC() != m.Addr {
+				return viol(i, "pc_len", "op %s inside a cloned block: PC=%#x, model %#x", op, e.PC(), m.Addr)
+			}
+			if panicked && st != nil {
+				st.Fault("refused_" + out.Refused)
+			}
+			continue
+		}
 		before := snapEmitter(e)
 		out := m.step(op)
 		var panicked bool
@@ -458,6 +518,9 @@ func c06run(sc *sim.Scenario, env *sim.Env, st *sim.Stats, observe bool) c06resu
 		if st != nil && op.K == "ref" {
 			// distance probes are taken when the label is known
 		}
+	}
+	if seg.active() {
+		seg.end(&e)
 	}
 	if st != nil {
 		for _, r := range m.Refs {
